@@ -793,11 +793,50 @@ def checkloop_expected(ctx, grid):
             return {}
         raise tlc.ToolError(f"CheckLoop failed (see {work}/tlc_error.log)")
     ctx.add_tlc(r, "CheckLoop")
+    checkloop_inductive(ctx)
     exp = {}
     for m in re.finditer(r'^<<"LIM", (\d+), (\d+), (\d+), (\d+), (\d+), (\d+)>>$', r["text"], re.M):
         n, mm, c, d, ran, stored = map(int, m.groups())
         exp[(n, mm, c, d)] = (ran, stored)
     return exp
+
+
+def checkloop_inductive(ctx):
+    """Apalache: the loop bound of CheckLoop for EVERY n and max_permutations (unbounded integers), per checkpoint interval:
+    Init => IndInv, IndInv /\\ Next => IndInv', IndInv => NoLaterThanBoundary; and a false bound must be refuted (non-vacuity).
+    Thorough tier only; a missing or failing tool is recorded as a note (TLC's grid is the registered oracle)."""
+    import subprocess, shutil
+    if ctx.tier != "thorough":
+        return
+    if shutil.which("apalache-mc") is None:
+        ctx.notes.append("apalache-mc not on PATH: inductive loop bound not attempted")
+        return
+    work = os.path.join(ctx.work, "checkloop_ind")
+    os.makedirs(work, exist_ok=True)
+    spec = os.path.join(tlc.SPECS, "ind", "CheckLoopInd.tla")
+    done = 0
+    for c in (1, 2, 3, 5, 20000):
+        for nm, args, want_ok in (("base", ["--init=Init", "--inv=IndInv", "--length=0"], True),
+                                  ("step", ["--init=IndInit", "--inv=IndInv", "--length=1"], True),
+                                  ("implies", ["--init=IndInit", "--inv=NoLaterThanBoundary", "--length=0"], True)) + \
+                                 ((("refute", ["--init=Init", "--inv=TooStrong", "--length=8"], False),) if c == 3 else ()):
+            try:
+                r = subprocess.run(["timeout", "600", "apalache-mc", "check", f"--cinit=ConstInit{c}", f"--out-dir={work}/out", f"--run-dir={work}/run"] + args + [spec],
+                                   capture_output=True, text=True, cwd=work)
+            except OSError as e:
+                ctx.notes.append(f"apalache-mc could not be run: {e}")
+                return
+            ok = "The outcome is: NoError" in r.stdout
+            err = "The outcome is: Error" in r.stdout
+            if not ok and not err:
+                ctx.notes.append(f"apalache-mc gave no verdict for C={c} {nm} (rc={r.returncode}): inductive loop bound incomplete")
+                return
+            if ok != want_ok:
+                ctx.violation("engine-invariant", None, {"spec": "CheckLoopInd", "obligation": nm, "interval": c},
+                              {"note": "Apalache refutes an obligation of the inductive loop bound" if want_ok else "Apalache accepts a bound that is false: the check is vacuous"})
+            done += 1
+    ctx.cov["apalache_obligations"] = done
+    ctx.notes.append(f"CheckLoopInd.tla: {done} Apalache obligations discharged (loop bound for all n, max_permutations; intervals 1, 2, 3, 5, 20000)")
 
 
 def with_region(p, t, a, b, skip=False):
